@@ -475,13 +475,13 @@ def dyadic_data(n):
     return np.array([(1.0, -0.5, 2.5, 0.75, -3.0, 0.125, 1.5)[(2 * i + i // 3) % 7] for i in range(n)])
 
 
-def _inputs_for(ctx, mode, mask, ky, kx, signed=True, nsym=None, ksym=None):
+def _inputs_for(ctx, mode, mask, ky, kx, signed=True, nsym=None, ksym=None, noise_exp=0):
     n = len(positions(mask))
     if nonsquare_known(ky, kx):
         # while the non-square w-tilde path is a recorded defect for every input, signed kernels add nothing there (and would blur the
         # attribution between the two recorded findings): non-square cases use non-negative kernels until that finding is marked fixed
         signed = False
-    data, noise, kernel = dyadic_data(n), pow2_noise(n), dyadic_kernel(ky, kx, signed).reshape(-1)
+    data, noise, kernel = dyadic_data(n), pow2_noise(n) * 2.0 ** noise_exp, dyadic_kernel(ky, kx, signed).reshape(-1)   # noise_exp: noise units (2^14.. = raw counts)
     if mode == "data":
         data = V.real_array("d", (n,))
     elif mode == "kernel":
@@ -519,11 +519,11 @@ def _mask_for(ctx, pattern, ky, kx, extra):
     return make_mask(pattern, ky, kx, extra)
 
 
-def case_wtilde(ctx, pattern, ky, kx, mode, extra=0, signed=True, nsym=None, ksym=None):
+def case_wtilde(ctx, pattern, ky, kx, mode, extra=0, signed=True, nsym=None, ksym=None, noise_exp=0):
     stop_if_enough(ctx)
     mask = _mask_for(ctx, pattern, ky, kx, extra)
     ctx.set_case(mask_rows=["".join("#" if m else "." for m in row) for row in mask])
-    inputs = _inputs_for(ctx, mode, mask, ky, kx, signed, nsym, ksym)
+    inputs = _inputs_for(ctx, mode, mask, ky, kx, signed, nsym, ksym, noise_exp)
     n = len(positions(mask))
     neg = _neg_overlap_term(mask, _obj(inputs["kernel"], (ky, kx)), _obj(inputs["noise"]).reshape(-1)[:n], ctx)
     if nonsquare_known(ky, kx) and neg is not None:
@@ -1051,11 +1051,11 @@ def body_inversion(inp, ky, kx, specs, solve=False, split=False):
     return A, E
 
 
-def case_inversion(ctx, pattern, ky, kx, specs, mode, extra=0, signed=True, solve=False, nsym=None, ksym=None):
+def case_inversion(ctx, pattern, ky, kx, specs, mode, extra=0, signed=True, solve=False, nsym=None, ksym=None, noise_exp=0):
     stop_if_enough(ctx)
     mask = _mask_for(ctx, pattern, ky, kx, extra)
     ctx.set_case(mask_rows=["".join("#" if m else "." for m in row) for row in mask])
-    inputs = _inputs_for(ctx, mode, mask, ky, kx, signed, nsym, ksym)
+    inputs = _inputs_for(ctx, mode, mask, ky, kx, signed, nsym, ksym, noise_exp)
     n = len(positions(mask))
     inputs["recon"] = V.real_array("r", (_total_params(mask, specs),))
     neg = _neg_overlap_term(mask, _obj(inputs["kernel"], (ky, kx)), _obj(inputs["noise"]).reshape(-1)[:n], ctx)
@@ -1177,6 +1177,11 @@ def cases(tier):
     out.append((I, {"pattern": "L3", "ky": 5, "kx": 5, "specs": ["R33s1", "F1"], "mode": "kernel", "ksym": [0, 12, 18]}))
     out.append((I, {"pattern": "L3", "ky": 1, "kx": 3, "specs": ["R33s1", "F1"], "mode": "kernel"}))
     out.append((I, {"pattern": "L3", "ky": 3, "kx": 1, "specs": ["F1", "R33s1"], "mode": "kernel"}))
+    # noise in large units (raw counts): every w-tilde overlap is ~1e-9..1e-11, the formalisms must still agree exactly
+    out.append((I, {"pattern": "cross5", "ky": 3, "kx": 3, "specs": ["R33s1", "R34s2d"], "mode": "data", "signed": True, "solve": True, "noise_exp": 16}))
+    out.append((I, {"pattern": "zig4", "ky": 3, "kx": 3, "specs": ["F1", "R33s2d"], "mode": "data", "signed": False, "solve": True, "noise_exp": 14}))
+    out.append((I, {"pattern": "block4", "ky": 3, "kx": 3, "specs": ["R33s1"], "mode": "kernel", "ksym": [0, 4, 7], "noise_exp": 17}))
+    out.append((W, {"pattern": "cross5", "ky": 3, "kx": 3, "mode": "data", "noise_exp": 16}))
     out.append((I, {"pattern": "L3", "ky": 3, "kx": 3, "specs": ["R33s1"], "mode": "noise"}))
     out.append((I, {"pattern": "block4", "ky": 3, "kx": 3, "specs": ["R33s1", "F1"], "mode": "noise"}))
     out.append((I, {"pattern": "cross5", "ky": 3, "kx": 3, "specs": ["F1", "R33s2d", "R33s1n"], "mode": "noise", "signed": False}))
@@ -1196,18 +1201,43 @@ def cases(tier):
     return out
 
 
+def _scale_equal(a, e, rel=1e-7):
+    """replay comparison that is covariant under a rescaling of the noise units: arrays are compared relative to the largest
+    magnitude of the expected array (hx.concrete_equal's 1e-7*(1+|e|) band would hide every discrepancy in quantities that are
+    themselves of order 1/noise^2 << 1e-7)"""
+    from symx import shim
+    if isinstance(a, (hx.Raised, str)) or isinstance(e, (hx.Raised, str)) or a is None or e is None:
+        return hx.concrete_equal(a, e)
+    try:
+        aa_ = np.asarray(shim.normalise(hx.unwrap(a)), dtype=float)
+        ee_ = np.asarray(shim.normalise(hx.unwrap(e)), dtype=float)
+    except (TypeError, ValueError):
+        return hx.concrete_equal(a, e)
+    if aa_.shape != ee_.shape:
+        return False
+    if aa_.size == 0:
+        return True
+    if not (np.isfinite(aa_).all() and np.isfinite(ee_).all()):
+        return hx.concrete_equal(a, e)
+    scale = float(np.abs(ee_).max())
+    if scale == 0.0:
+        return bool(np.abs(aa_).max() == 0.0) or hx.concrete_equal(a, e, 1e-12)
+    return bool(np.abs(aa_ - ee_).max() <= rel * scale)
+
+
 def replay(cand):
-    """run the case's body natively on the float64 counterexample (only the arguments the body takes are forwarded)"""
+    """run the case's body natively on the float64 counterexample (only the arguments the body takes are forwarded); outputs are compared
+    relative to the scale of the expected array (see _scale_equal)"""
     import inspect
     body = BODIES[cand["case_fn"]]
     kw = dict(cand["case_kwargs"])
     accepted = set(inspect.signature(body).parameters) - {"inp"}
-    c = dict(cand)
-    c["case_kwargs"] = {k: v for k, v in kw.items() if k in accepted}
-    ok, detail = hx.replay_body(body, c)
-    if not ok and "[" in str(cand.get("obligation", "")):
-        # per-entry obligations: the body reports whole arrays when replayed without `split`
-        c2 = dict(c)
-        c2["obligation"] = base_key(cand["obligation"])
-        return hx.replay_body(body, c2)
-    return ok, detail
+    inp = hx.to_float_struct(cand["case"])
+    actual, expected = body(inp, **{k: v for k, v in kw.items() if k in accepted})
+    bad = [k for k in expected if k not in actual or not _scale_equal(actual[k], expected[k])]
+    if bad:
+        ob = str(cand.get("obligation", ""))
+        k = ob if ob in bad else (base_key(ob) if base_key(ob) in bad else bad[0])
+        return True, "outputs differ from the reference on the real code: %s; e.g. %s: actual=%s expected=%s" % (
+            bad, k, hx._short(actual.get(k)), hx._short(expected[k]))
+    return False, "real code agrees with the reference on this input (%d outputs)" % len(expected)
